@@ -47,6 +47,15 @@ initial states), "mix" cases propagate all pairwise equal mixtures of these stat
   matrix and state vector) to the rotating frame with convert_to_RWA: valid states, equal to the
   exact rotating-frame dynamics and to the library's rotating-frame propagation.
 
+  dephasing history (sec dephhist): ONE propagator object (LindbladForm + PureDephasing) lives
+  through a history: first setting (type x rate set) and then every ordered sequence of one
+  (pairs) or two (triples) changes from the alphabet {assign a new PureDephasing to the
+  propagator, rewrite the held object in place} x type x rate set + {convert_to} x type.  After
+  the construction and after every change ALL spanning states are propagated on that object;
+  every run must satisfy every clause of the deph section for the dephasing in force AT THAT
+  RUN (keys dephasing-history/run-<k>/<change>/after-<previous type>/...), and the runs after
+  the last change are repeated on a fresh propagator with the same generator.
+
 Oracles (reference model mc/refmodels/gksl.py, numpy/scipy only):
   R  trace = 1 and Hermiticity at every stored time: |dev| <= 1e-10 * max(1, max|rho|)
   T  b[i] = a-priori truncation bound of the declared scheme at stored time i,
@@ -55,6 +64,8 @@ Oracles (reference model mc/refmodels/gksl.py, numpy/scipy only):
      computed from the generator, the step and the declared order only; allowed deviation
      2*b[i]*||rho_0||_F + 1e-10 (+ the reference's own integration error for Gaussian dephasing).
 """
+import json
+
 import numpy
 from scipy.linalg import expm
 
@@ -260,6 +271,14 @@ def rwa_admissible(case):
     return G.commutes_with_rotation(Lv, m["omega"])
 
 
+def _deph_B(m):
+    """Dephasing super-operator of a model: site rates m["w"] (GKSL dissipator of the site
+    projectors) or, for the dephasing-history cases, an explicit rate matrix m["gamma"]."""
+    if m.get("gamma") is not None:
+        return G.dephasing_generator(m["gamma"])
+    return G.dissipator(G.dephasing_jumps(m["w"]), m["d"])
+
+
 def reference(case, m, vecs0, norms0):
     """Bounds and exact states in the frame the library propagates in (rotating if rwa).
     Returns dict(b (Nt,), exact (Nt, d^2, nstates), ref_err, lab_exact or None)."""
@@ -274,12 +293,12 @@ def reference(case, m, vecs0, norms0):
     pd = case.get("pdeph", "none")
     out = {"ref_err": 0.0}
     if pd == "Gaussian":
-        B = G.dissipator(G.dephasing_jumps(m["w"]), d)
+        B = _deph_B(m)
         R = G.gaussian_reference(A, B, order, h, nsub, nref, 0.0, vecs0, d, m=4)
         out.update(b=R["bound"], exact=R["exact"], ref_err=10.0 * R["ref_err"])
     else:
         if pd == "Lorentzian":
-            B = G.dissipator(G.dephasing_jumps(m["w"]), d)
+            B = _deph_B(m)
             bd = numpy.real(numpy.diag(B))
             S = numpy.exp(bd * h)[:, None] * G.taylor(A * h, order)
             Lfull = A + B
@@ -316,7 +335,7 @@ def lab_exact(case, m, ref, vecs0):
         return carried, ref["ref_err"]
     Llab = G.liouvillian(m["H"], m["jumps"])
     if pd == "Lorentzian":
-        Llab = Llab + G.dissipator(G.dephasing_jumps(m["w"]), d)
+        Llab = Llab + _deph_B(m)
     Est = expm(Llab * dt)
     if not G.check_semigroup(Llab, Est, dt, Nt):
         raise isolation.HarnessError("laboratory reference semigroup inconsistent")
@@ -1186,8 +1205,227 @@ def eval_redfield(case):
             "info": {"worst": book.worst, "sec": "redfield", "informative": True}}
 
 
+# ---------------------------------------------------------------------------------------------
+# history of the pure dephasing of ONE propagator object
+# ---------------------------------------------------------------------------------------------
+DEPH_TYPES = ("Lorentzian", "Gaussian")
+# site rate sets per type ("a" = the sets of the deph section; "b" differs from "a" by O(1)/T
+# resp. O(1)/T^2 on every coherence, so that a factor left over from "a" is far above the bound)
+DEPH_SETS = {"Lorentzian": {"a": DEPH_L, "b": (0.0, 2.4, 0.4, 2.0)},
+             "Gaussian": {"a": DEPH_G, "b": (0.0, 9.0, 1.5, 7.0)}}
+# how the dephasing of the propagator is changed between two runs
+HIST_HOWS = ("assign", "mutate", "convert")
+
+
+def hist_settings(rsets=("a", "b")):
+    """All dephasing settings [type, rate set]."""
+    return [[t, r] for t in DEPH_TYPES for r in rsets]
+
+
+def hist_steps(hows=HIST_HOWS, rsets=("a", "b")):
+    """The complete alphabet of changes between two runs: [how, type, rate set]
+      assign   propagator.PDeph = PureDephasing(rates, dtype=type)         (a new object)
+      mutate   the PureDephasing object the propagator holds is rewritten in place
+               (data[...] = rates, dtype = type)
+      convert  PureDephasing.convert_to(type) on the object the propagator holds (rate set '-':
+               the rates are whatever the conversion leaves on the object)."""
+    out = []
+    for how in hows:
+        if how == "convert":
+            out += [[how, t, "-"] for t in DEPH_TYPES]
+        else:
+            out += [[how, t, r] for t in DEPH_TYPES for r in rsets]
+    return out
+
+
+def _hist_gamma(dtype, rset, d, T):
+    w = numpy.array(DEPH_SETS[dtype][rset][:d], dtype=float)
+    return G.dephasing_rate_matrix(w / (T if dtype == "Lorentzian" else T ** 2))
+
+
+_HIST_REFS = {}
+
+
+def eval_history(case):
+    """ONE ReducedDensityMatrixPropagator (LindbladForm + PureDephasing) is used for a whole
+    history: built with the setting case['first'], then changed by every step of case['steps'];
+    after the construction and after every change ALL spanning states are propagated on it.
+    Every run must satisfy every clause of the deph section for the generator that is in force
+    AT THAT RUN (type and rates the PureDephasing object of the propagator holds), whatever the
+    propagator was used for before; the same run on a fresh propagator (fresh Hamiltonian,
+    tensor and PureDephasing with the same numbers) is made next to the runs after the LAST
+    change."""
+    qr = isolation.qr()
+    from quantarhei.qm import (PureDephasing, ReducedDensityMatrixPropagator,
+                               ReducedDensityMatrix)
+    m = model(case)
+    d, Nt, dt = m["d"], m["Nt"], m["dt"]
+    T = (Nt - 1) * dt
+    labels, psis, rhos = _states(case, d)
+    vecs0 = [r.reshape(-1) for r in rhos]
+    rwa = case.get("rwa", "off") != "off"
+    method = "short-exp-%d" % case["order"]
+    nref = case["nref"]
+    ta = qr.TimeAxis(0.0, Nt, dt)
+    ham = lib_hamiltonian(m, case)
+    tensor = lib_lindblad(m, case, ham)
+    cur_type, cur_gamma = case["first"][0], _hist_gamma(case["first"][0], case["first"][1], d, T)
+    pd = PureDephasing(numpy.array(cur_gamma), dtype=cur_type)
+    pr = ReducedDensityMatrixPropagator(ta, ham, RTensor=tensor, PDeph=pd)
+
+    refs = _HIST_REFS       # pure function of the key: shared by the cases a worker evaluates
+    ckey = json.dumps([case[x] for x in ("dim", "ham", "scale", "axis", "gen", "rwa", "order",
+                                          "nref")])
+
+    def ref_of(dtype, gamma):
+        key = (ckey, dtype, numpy.asarray(gamma, dtype=float).tobytes())
+        if key not in refs:
+            if len(refs) > 400:
+                refs.clear()
+            ck = dict(case, pdeph=dtype)
+            mk = dict(m, w=None, gamma=numpy.array(gamma, dtype=float))
+            r = reference(ck, mk, vecs0, None)
+            r["lab"] = lab_exact(ck, mk, r, vecs0) if rwa else None
+            r["cnd"] = G.is_conditionally_negative(gamma)
+            refs[key] = r
+        return refs[key]
+
+    violations, worst = [], {}
+    tags, digest, bounds = [], [], []
+    nprop, noop, informs = 0, 0, []
+    prev_type = None
+    hist = [["first"] + list(case["first"])] + [list(s) for s in case["steps"]]
+    for k, step in enumerate(hist):
+        how = step[0]
+        fresh = k == len(hist) - 1 and k > 0      # the run after the last change
+        if how == "assign":
+            cur_type, cur_gamma = step[1], _hist_gamma(step[1], step[2], d, T)
+            pd = PureDephasing(numpy.array(cur_gamma), dtype=cur_type)
+            pr.PDeph = pd
+        elif how == "mutate":
+            cur_type, cur_gamma = step[1], _hist_gamma(step[1], step[2], d, T)
+            pd.data[...] = cur_gamma
+            pd.dtype = cur_type
+        elif how == "convert":
+            before = (str(pd.dtype), numpy.array(pd.data, copy=True))
+            pd.convert_to(step[1])
+            # the generator of the following runs is what the object says now
+            cur_type, cur_gamma = str(pd.dtype), numpy.array(pd.data, copy=True)
+            if cur_type not in DEPH_TYPES or not G.valid_rate_matrix(cur_gamma):
+                # the conversion itself is not the subject of this property
+                return {"nontrivial": False, "outcome": "convert_to-left-no-valid-dephasing",
+                        "violations": violations,
+                        "info": {"sec": "dephhist", "unbuildable": "convert_to-invalid-rates"}}
+            cur_gamma = numpy.real(cur_gamma).astype(float)
+            if before[0] == cur_type and numpy.array_equal(before[1], cur_gamma) \
+                    and before[0] != step[1]:
+                noop += 1
+        elif how != "first":
+            raise isolation.HarnessError("history step %r" % (step,))
+        if pr.PDeph is not pd:
+            raise isolation.HarnessError("the propagator does not hold the dephasing object")
+        ref = ref_of(cur_type, cur_gamma)
+        b = ref["b"]
+        inform = bool(b[-1] <= INFORMATIVE)
+        informs.append(inform)
+        tag = "lindblad/%s/pdeph=%s/rwa=%s" % (case["form"], cur_type, case.get("rwa", "off"))
+        if how == "first":
+            pre = "dephasing-history/run-0/first-setting/"
+        else:
+            pre = "dephasing-history/run-%d/%s/after-%s/" % (k, how, prev_type)
+        book = Book(pre)
+        tags.append(pre + tag)
+        bounds.append("%.2e" % b[-1])
+        if fresh:                          # the same generator on fresh objects
+            ham_f = lib_hamiltonian(m, case)
+            tensor_f = lib_lindblad(m, case, ham_f)
+        desc = "run %d of one propagator (%s)" % (
+            k, "as built" if how == "first" else
+            "dephasing changed by %s from %s to %s" % (how, prev_type, cur_type))
+        for s, lab in enumerate(labels):
+            rho0 = rhos[s]
+            n0 = float(numpy.linalg.norm(rho0))
+            ev = pr.propagate(ReducedDensityMatrix(data=numpy.array(rho0, dtype=complex)),
+                              method=method, Nref=nref)
+            nprop += 1
+            raw = numpy.array(ev.data, copy=True)
+            _validity(book, tag + "/raw", lab, raw)
+            flagged = bool(getattr(ev, "is_in_rwa", False))
+            if flagged != rwa:
+                book.check("rwa-flag", "rwa/flag-%s/%s" % ("set-without-rwa" if flagged
+                                                            else "not-set", tag), [1.0], 0.0,
+                           "is_in_rwa flag of the evolution returned by %s is %s" % (desc, flagged))
+            if not numpy.all(numpy.isfinite(raw)):
+                continue
+            tolT = 2.0 * b * n0 + RTOL + ref["ref_err"]
+            ex = ref["exact"][:, :, s].reshape(Nt, d, d)
+            book.check("hist-exact", "exact/%s" % tag, _fro(raw - ex), tolT,
+                       "%s: stored states differ from exp(L t) rho0 of the GKSL generator with "
+                       "the dephasing in force at this run by more than the truncation bound "
+                       "(state %s, order %d, Nref %d, generator %s)"
+                       % (desc, lab, case["order"], nref, case["gen"]), {"state": lab},
+                       informative=inform)
+            if fresh:
+                pd_f = PureDephasing(numpy.array(cur_gamma), dtype=cur_type)
+                pr_f = ReducedDensityMatrixPropagator(ta, ham_f, RTensor=tensor_f, PDeph=pd_f)
+                ev_f = pr_f.propagate(ReducedDensityMatrix(data=numpy.array(rho0, dtype=complex)),
+                                      method=method, Nref=nref)
+                nprop += 1
+                raw_f = numpy.array(ev_f.data, copy=True)
+                book.check("hist-fresh-exact", "fresh-propagator/exact/%s" % tag,
+                           _maxfro(raw_f, ex), tolT,
+                           "a FRESH propagator with the generator of %s: stored states differ "
+                           "from exp(L t) rho0 by more than the truncation bound (state %s)"
+                           % (desc, lab), {"state": lab}, informative=inform)
+                # both are within tolT of the exact states: implied by the property
+                book.check("hist-reused-vs-fresh", "reused-vs-fresh-propagator/%s" % tag,
+                           _maxfro(raw, raw_f), 2.0 * tolT,
+                           "%s: stored states differ from those of a fresh propagator with the "
+                           "same generator by more than both truncation bounds (state %s, order "
+                           "%d, Nref %d)" % (desc, lab, case["order"], nref), {"state": lab},
+                           informative=inform)
+            if rwa:
+                from_rwa(case, ev, ham)
+                if getattr(ev, "is_in_rwa", False):
+                    book.check("rwa-flag", "rwa/flag-still-set-after-conversion/%s" % tag, [1.0],
+                               0.0, "evolution converted by convert_from_RWA is still flagged "
+                               "is_in_rwa (%s)" % desc)
+                conv = numpy.array(ev.data, copy=True)
+                _validity(book, tag + "/converted", lab, conv)
+                exl = ref["lab"][0][:, :, s].reshape(Nt, d, d)
+                book.check("hist-rwa-exact-lab", "rwa/vs-exact-lab/%s" % tag, _fro(conv - exl),
+                           tolT + ref["lab"][1],
+                           "%s: rotating-frame dynamics converted back by convert_from_RWA differ "
+                           "from exp(L t) rho0 of the laboratory-frame GKSL generator by more than "
+                           "the truncation bound (state %s)" % (desc, lab), {"state": lab},
+                           informative=inform)
+            else:
+                conv = raw
+            if ref["cnd"]:
+                mine = numpy.array([G.min_eigenvalue(x) for x in conv])
+                book.check("hist-positivity", "positivity/%s" % tag, numpy.maximum(-mine, 0.0),
+                           tolT, "%s: stored state has a negative eigenvalue beyond the "
+                           "truncation bound (state %s)" % (desc, lab), {"state": lab},
+                           informative=inform)
+            if s < 2:
+                digest.append(_digest(conv))
+        violations += book.violations()
+        for c, (u, e) in book.worst.items():
+            w = worst.setdefault(c, [0.0, 0.0])
+            w[0], w[1] = max(w[0], u), max(w[1], e)
+        prev_type = cur_type
+    nontrivial = all(informs)
+    return {"nontrivial": nontrivial,
+            "outcome": [tags, case["gen"], digest, bounds],
+            "violations": violations, "n": nprop - 1,
+            "info": {"worst": worst, "sec": "dephhist", "informative": nontrivial,
+                     "convert_noop": noop}}
+
+
 def eval_case(case):
     sec = case["sec"]
+    if sec == "dephhist":
+        return eval_history(case)
     if sec == "closed":
         return eval_closed(case)
     if sec in ("lindblad", "deph"):
@@ -1208,6 +1446,7 @@ ORDERS = [4, 2, 6]
 NREFS = [1, 2, 5]
 AX_SHORT = [40, 2.0]
 AX_LONG = [200, 0.5]
+AX_HIST = [14, 2.0]       # dephasing histories (every case makes (len+1) * dim^2 + dim^2 runs)
 
 
 def _hams(d):
@@ -1345,6 +1584,37 @@ def cases(tier):
            "nref": [1] if quick else [1, 2], "ctx_sites": sites, "ctx_units": units}
     cs += product(dom, ok_ctx)
 
+    # ---- history of the pure dephasing of ONE propagator object ----------------------------------
+    # ordered pairs (first setting, change): complete alphabet of settings x complete alphabet of
+    # changes; ordered triples: the same with a second change (quick: over rate set "a")
+    def hist_product(dims, forms_, rwas_, orders_, nrefs_, firsts, step_lists):
+        out = []
+        for d_ in dims:
+            dom_ = {"sec": ["dephhist"], "dim": [d_], "ham": ["coupled"], "scale": [0.125],
+                    "axis": [AX_HIST], "gen": ["01" if d_ == 2 else "12+21"], "form": forms_,
+                    "rwa": rwas_, "order": orders_, "nref": nrefs_, "first": firsts,
+                    "steps": step_lists}
+            out += product(dom_, ok_lind)
+        return out
+    import itertools
+    S_all, F_all = hist_steps(), hist_settings()
+    S_a, F_a = hist_steps(rsets=("a",)), hist_settings(rsets=("a",))
+    S_ac = hist_steps(hows=("assign", "convert"), rsets=("a",))
+    pairs = [[s] for s in S_all]
+
+    def triples(alphabet):
+        return [list(p) for p in itertools.product(alphabet, alphabet)]
+    if quick:
+        cs += hist_product([2], forms, ["off"], [4], [1], F_all, pairs)
+        cs += hist_product([3], forms, ["ge"], [4], [1], F_a, [[s] for s in S_a])
+        cs += hist_product([2], forms, ["off"], [4], [1], F_a, triples(S_ac))
+    else:
+        cs += hist_product([2], forms, ["off"], ORDERS, [1], F_all, pairs)
+        cs += hist_product([2], forms, ["off"], [4], [2], F_all, pairs)
+        cs += hist_product([3], forms, ["off", "ge"], [4], [1, 2], F_all, pairs)
+        cs += hist_product([2], forms, ["off"], [4], [1], F_all, triples(S_all))
+        cs += hist_product([3], ["operators", "tensor"], ["off"], [4], [1], F_a, triples(S_a))
+
     # ---- Redfield tensors: trace and Hermiticity -------------------------------------------------
     dom = {"sec": ["redfield"], "nsites": [2] if quick else [2, 3], "td": [False, True],
            "form": ["tensor", "operators", "secular", "operators-secular"],
@@ -1388,6 +1658,15 @@ def run(run):
                 "/ convert_to_RWA (class R identities, flags); closed cases convert the "
                 "laboratory-frame propagation with convert_to_RWA and compare it with the exact "
                 "and the propagated rotating-frame dynamics.  "
+                "Dephasing history (sec dephhist): ONE propagator object (LindbladForm + "
+                "PureDephasing) x first setting %r x every ordered sequence of 1 (pairs) or 2 "
+                "(triples) changes from the alphabet {assign a new PureDephasing, rewrite the held "
+                "object in place} x type x rate set + {convert_to} x type; after the construction "
+                "and after every change ALL spanning states are propagated on that one object and "
+                "every run must satisfy every clause of the deph section for the dephasing in "
+                "force at that run (exact solution in the frame of the calculation and in the "
+                "laboratory frame, trace, Hermiticity, positivity, flags); next to every run after "
+                "the last change the same generator on a fresh propagator.  "
                 "RWA cases are in the product only "
                 "when [L, ad_Omega] = 0 (rotating-frame calculation is exact).  non-trivial = the "
                 "generator acts (coupling or >= 2 distinct energies for closed systems, a non-zero "
@@ -1395,7 +1674,7 @@ def run(run):
                 "time is <= %g (so the T-class oracle discriminates); Redfield cases (class R "
                 "clauses only) are all non-trivial; unbuildable configurations are trivial"
                 % (SV_MODULI, SV_PHASES, sorted(RWA_BLOCKS), ctx_sites_domain(), list(BCTX),
-                   INFORMATIVE))
+                   hist_settings(), INFORMATIVE))
     run.assumptions = [
         "reference: GKSL Liouvillian from Kronecker products, scipy.linalg.expm "
         "(mc/refmodels/gksl.py); Gaussian dephasing reference = 4th order Magnus, 4 sub-steps, own "
@@ -1435,6 +1714,18 @@ def run(run):
         "one since a959609) and refusals are counted (note sv_lab_to_rwa_refused, 0 on HEAD); "
         "the state-vector round trips on rotating-frame evolutions and all density-matrix "
         "directions are always applied",
+        "dephasing history: the generator of a run is defined by the public state of the "
+        "PureDephasing object the propagator holds at the time of the call (dtype, data); for "
+        "the steps 'assign'/'mutate' these are the numbers of the case, for 'convert' whatever "
+        "PureDephasing.convert_to leaves on the object (the conversion formula itself is not a "
+        "subject of this property; a conversion that leaves the type unchanged is counted, note "
+        "convert_to_left_type_unchanged).  Positivity is checked when the rate matrix is "
+        "conditionally negative definite (Schoenberg; true for (w_a+w_b)/2 and its element-wise "
+        "square root), decided by the reference model.  The comparison reused vs fresh propagator "
+        "uses the sum of both truncation allowances (what the property implies), not class R.  "
+        "Nref, order and time axis are the same for all runs of a history (Nref is a documented "
+        "sticky setting of the object).  Only the time independent tensor routes (operator and "
+        "tensor form) apply PureDephasing at all",
         "laboratory-frame reference of an admissible RWA Lindblad case: powers of expm(L_lab dt) "
         "(constant generators; cross-checked against the rotating-frame reference carried to the "
         "laboratory frame) or the carried rotating-frame Magnus reference (Gaussian dephasing)",
@@ -1449,11 +1740,20 @@ def run(run):
                   "ctx_units": ["1/cm", "eV"] if run.tier == "quick" else ["1/cm", "eV", "THz", "int"],
                   "bctx": ["none"] + list(BCTX),
                   "conversion directions": ["from_RWA", "to_RWA", "from.to", "to.from", "to.to"],
+                  "dephasing history": {"settings": hist_settings(), "changes": hist_steps(),
+                                        "axis(Nt,dt)": AX_HIST,
+                                        "length": "pairs: all (dim 2%s; triples: %s"
+                                        % (("), rate set a (dim 3, rwa ge)",
+                                            "changes assign/convert, rate set a (dim 2)")
+                                           if run.tier == "quick" else
+                                           (", dim 3 with rwa off/ge)",
+                                            "all (dim 2), rate set a (dim 3)"))},
                   "cases": len(cs)}
     infos = run_grid(run, cs, eval_case)
     worst, unb, secs = {}, {}, {}
-    refused, bsec = 0, {}
+    refused, bsec, noop = 0, {}, 0
     for i in infos:
+        noop += int(i.get("convert_noop", 0) or 0)
         refused += int(i.get("sv_lab_to_rwa_refused", 0) or 0)
         if i.get("bctx", "none") != "none":
             bs = bsec.setdefault(i["bctx"], {"cases": 0, "informative": 0})
@@ -1471,4 +1771,4 @@ def run(run):
     run.note(worst_use_of_tolerance_and_abs_deviation_per_clause={
         c: ["%.3g" % w[0], "%.3g" % w[1]] for c, w in sorted(worst.items())},
         unbuildable_counted=unb, per_section=secs, per_basis_context=bsec,
-        sv_lab_to_rwa_refused=refused)
+        sv_lab_to_rwa_refused=refused, convert_to_left_type_unchanged=noop)
